@@ -118,6 +118,10 @@ class AbstractExcelInPython(ABC):
     def _compare(self, operator: str, left_operand: str | int | float | datetime.date | datetime.datetime,
                           right_operand: str | int | float | datetime.date | datetime.datetime) -> bool:
         try:
+            # Пустая ячейка меньше любого непустого текста, даже похожего на число ("-5", "0")
+            if isinstance(left_operand, self.EmptyCell) and isinstance(right_operand, str) \
+                    or isinstance(right_operand, self.EmptyCell) and isinstance(left_operand, str):
+                raise TypeError('blank and text are compared as they are')
             return self._by_operator(operator, self._to_number(left_operand), self._to_number(right_operand))
         except (ValueError, TypeError):
             try:
